@@ -91,9 +91,9 @@ static int srv_query(char cmd, const unsigned char *data, size_t dlen, int qtype
  * kind N / T: NULL or TXT queries; loginhex: the 16 hash bytes of the login message */
 static void do_version_login(char *args)
 {
-	unsigned char pw[64], hash[64], msg[32], out[256];
-	size_t n, hl;
-	char *sp;
+	unsigned char pw[64], hash[64], msg[32], out[256], rawpkt[64];
+	size_t n, hl, rawlen;
+	char *sp, *rawtok;
 	uint32_t r;
 	int uid, i, qtype, len;
 
@@ -122,6 +122,15 @@ static void do_version_login(char *args)
 	if (hl > 16) hl = 16;
 	memset(hash, 0, sizeof(hash));
 	memcpy(hash, in, hl);
+	/* optional: the payload of a raw login datagram sent after the DNS login */
+	rawtok = strchr(sp, ' ');
+	rawlen = 0;
+	if (rawtok) {
+		while (*rawtok == ' ') rawtok++;
+		rawlen = unhex(rawtok, in);
+		if (rawlen > sizeof(rawpkt)) rawlen = sizeof(rawpkt);
+		memcpy(rawpkt, in, rawlen);
+	}
 
 	for (i = 0; i < created_users; i++) {
 		users[i].active = i < uid;
@@ -156,16 +165,44 @@ static void do_version_login(char *args)
 	msg[18] = 0x35;
 	len = srv_query('l', msg, 19, qtype, 0x1002, out, sizeof(out));
 	if (len < 0)
-		printf(" login=NO-ANSWER %d\n", len);
+		printf(" login=NO-ANSWER %d", len);
 	else if (len == 4 && !memcmp(out, "LNAK", 4))
-		printf(" login=LNAK auth=%d\n", users[uid].authenticated);
+		printf(" login=LNAK auth=%d", users[uid].authenticated);
 	else if (len >= 7 && isdigit(out[0]) && users[uid].authenticated)
-		printf(" login=ACCEPT auth=1\n");
+		printf(" login=ACCEPT auth=1");
 	else {
 		printf(" login=OTHER ");
 		puthex(out, len);
-		printf(" auth=%d\n", users[uid].authenticated);
+		printf(" auth=%d", users[uid].authenticated);
 	}
+	if (rawtok) {
+		/* the raw login that follows the DNS login of the same session: still the challenge of the version reply */
+		struct query q;
+		struct sockaddr_in *sin;
+		unsigned char *pkt = malloc(rawlen ? rawlen : 1);
+		memcpy(pkt, rawpkt, rawlen);
+		memset(&q, 0, sizeof(q));
+		sin = (struct sockaddr_in *)&q.from;
+		sin->sin_family = AF_INET;
+		sin->sin_port = htons(4712);
+		sin->sin_addr.s_addr = inet_addr("192.0.2.7");
+		q.fromlen = sizeof(*sin);
+		sent_len = 0;
+		sent_count = 0;
+		handle_raw_login((char *)pkt, (int)rawlen, &q, 7, uid);
+		if (sent_count == 0)
+			printf(" raw=NONE");
+		else if (sent_count != 1 || sent_len != RAW_HDR_LEN + 16 || memcmp(sent, raw_header, RAW_HDR_IDENT_LEN) != 0 ||
+			 (sent[RAW_HDR_CMD] & 0xff) != (RAW_HDR_CMD_LOGIN | (uid & 0x0F))) {
+			printf(" raw=BAD:");
+			puthex(sent, sent_len);
+		} else {
+			printf(" raw=");
+			puthex(sent + RAW_HDR_LEN, 16);
+		}
+		free(pkt);
+	}
+	printf("\n");
 }
 
 /* SR passhex seed pkthex -- pkthex is the payload of a raw login datagram (after the header) */
